@@ -1,3 +1,397 @@
-/- C16: property theorems (stub, not yet built) -/
+/-
+C16 — Forceful reapers act only on their documented trigger.
+
+Property theorems only (helper lemmas live in `Karp/Proofs/Reapers.lean`).
+Model: `Karp/Model/Reapers.lean` (expiration, garbage collection, liveness inside the lifecycle pass, node
+repair; every API / provider call outcome and the clock are inputs).
+Spec:  `Karp/Spec/Reapers.lean` (when may each reaper issue a Delete, from the property text).
+
+All theorems quantify over ALL inputs: every NodeClaim / Node / provider state, every clock position and
+every vector of call outcomes (fault sequences of any length).
+-/
+import Karp.Proofs.Reapers
+
 namespace Karp.C16
+open Karp.Reapers Karp.Spec.Reapers
+
+/-! ## Fact expectations over the regenerated constants -/
+
+/-- a NodeClaim has 5 minutes to launch -/
+theorem fact_launch_timeout : Karp.Gen.Reapers.launchTimeoutNs = 5 * 60 * 1000000000 := by decide
+/-- … and 15 minutes to register -/
+theorem fact_registration_timeout : Karp.Gen.Reapers.registrationTimeoutNs = 15 * 60 * 1000000000 := by decide
+/-- property text: "at most 20% (rounded up) of the pool's nodes are unhealthy" -/
+theorem fact_breaker_percent :
+    Karp.Gen.Reapers.allowedUnhealthyPercent = 20 ∧ Karp.Gen.Reapers.unhealthyRoundUp = true := by decide
+
+/-! ## Expiration -/
+
+/-- **C16_expiration** — a Delete is issued only when expiry is enabled and the clock has reached
+    creation + expireAfter. -/
+theorem C16_expiration (i : ExpIn) (h : 0 < (expiration i).deletes) :
+    expirationMayDelete i.expireAfter i.created i.now = true := by
+  unfold expiration at h
+  unfold expirationMayDelete
+  cases hm : i.managed <;> cases hd : i.deleting <;> cases he : i.expireAfter <;> simp [hm, hd, he] at h ⊢
+  split at h
+  · simp at h
+  · omega
+
+/-- never when expiry is disabled -/
+theorem C16_expiration_never_when_disabled (i : ExpIn) (h : i.expireAfter = none) :
+    (expiration i).deletes = 0 := by
+  unfold expiration
+  repeat' split
+  all_goals simp_all
+
+/-- the exact trigger (both directions), and at most one Delete per pass -/
+theorem C16_expiration_exact (i : ExpIn) :
+    (expiration i).deletes =
+      if i.managed = true ∧ i.deleting = false ∧ expirationMayDelete i.expireAfter i.created i.now = true then 1 else 0 := by
+  unfold expiration expirationMayDelete
+  cases i.managed <;> cases i.deleting <;> cases i.expireAfter <;> simp
+  split <;> split <;> first | rfl | omega
+
+/-- while waiting, the requeue delay is exactly the time left -/
+theorem C16_expiration_requeue (i : ExpIn) (d : Int) (hm : i.managed = true) (hd : i.deleting = false)
+    (he : i.expireAfter = some d) (hlt : i.now < i.created + d) :
+    (expiration i).requeue = i.created + d - i.now ∧ (expiration i).deletes = 0 := by
+  unfold expiration
+  simp [hm, hd, he, hlt]
+
+/-! ## Garbage collection
+
+Full statement (what the property demands):
+
+    theorem C16_gc (i : GCIn) (d : String) (h : d ∈ (gc i).1) :
+        ∃ c ∈ i.claims, c.name = d ∧ gcMayDelete i c = true
+
+It FAILS for the code as it is, in two ways (both replayed on the real controller, see the negation
+witnesses below and `corpus/c16.gc_lookup/`):
+ 1. a failed Node lookup is recorded in `errs[i]` but the closure does not `return`: the NodeClaim is deleted
+    although "Node absent or not Ready" was not established (its Node may be Ready);
+ 2. a *duplicate* Node error is deliberately ignored, so a NodeClaim with two Nodes, one of them Ready, is
+    deleted.
+Proved instead: the statement with exactly these two escape clauses (`C16_gc_partial`), the full statement
+for a collector that returns on a lookup error when no provider id is shared by two Nodes
+(`C16_gc_full_when_repaired`), and that nothing is deleted when either list call fails. -/
+
+/-- **C16_gc_partial** — for the collector as written (either value of the control-flow fact): a deleted
+    NodeClaim is Registered, both lists were obtained, the provider lists no live instance for it, and its
+    Node was established absent / not Ready — *unless* the Node lookup failed (and the closure does not
+    return) or the lookup found duplicate Nodes. -/
+theorem C16_gc_partial (flag : Bool) (i : GCIn) (d : String) (h : d ∈ (gcWith flag i).1) :
+    ∃ c ∈ i.claims, c.name = d ∧ c.registered = .true_ ∧ i.listClaimsFault = false ∧ providerLacks i c = true ∧
+      (nodeAbsentOrNotReady i c = true ∨ (flag = false ∧ lookup i c = .failed) ∨ lookup i c = .duplicate) := by
+  obtain ⟨hl, hp, c, hc, hname, hcand, hdel⟩ := mem_gcWith flag i d h
+  obtain ⟨hreg, hlacks⟩ := candidate_providerLacks i c hp hcand
+  refine ⟨c, hc, hname, hreg, hl, hlacks, ?_⟩
+  unfold gcOne at hdel
+  cases hlk : lookup i c with
+  | failed =>
+    rw [hlk] at hdel
+    cases flag with
+    | true => simp at hdel
+    | false => exact Or.inr (Or.inl ⟨rfl, rfl⟩)
+  | notFound => exact Or.inl (lookup_established i c (Or.inl hlk))
+  | duplicate => exact Or.inr (Or.inr rfl)
+  | one r =>
+    cases r with
+    | true => rw [hlk] at hdel; simp at hdel
+    | false => exact Or.inl (lookup_established i c (Or.inr hlk))
+
+/-- the same about `gc`, the collector with the control-flow fact regenerated from the source -/
+theorem C16_gc_as_is (i : GCIn) (d : String) (h : d ∈ (gc i).1) :
+    ∃ c ∈ i.claims, c.name = d ∧ c.registered = .true_ ∧ i.listClaimsFault = false ∧ providerLacks i c = true ∧
+      (nodeAbsentOrNotReady i c = true ∨
+        (Karp.Gen.Reapers.gcReturnsOnNodeLookupError = false ∧ lookup i c = .failed) ∨ lookup i c = .duplicate) :=
+  C16_gc_partial _ i d h
+
+/-- **C16_gc_full_when_established** — the full statement holds of the collector as written on every run in
+    which no Node lookup of a NodeClaim fails and none finds duplicate Nodes (i.e. with a healthy API server
+    and a consistent cluster: exactly the runs the example-based tests exercise). -/
+theorem C16_gc_full_when_established (flag : Bool) (i : GCIn) (d : String)
+    (hok : ∀ c ∈ i.claims, lookup i c ≠ .failed ∧ lookup i c ≠ .duplicate) (h : d ∈ (gcWith flag i).1) :
+    ∃ c ∈ i.claims, c.name = d ∧ gcMayDelete i c = true := by
+  obtain ⟨c, hc, hname, hreg, hl, hlacks, hrest⟩ := C16_gc_partial flag i d h
+  refine ⟨c, hc, hname, ?_⟩
+  have hest : nodeAbsentOrNotReady i c = true := by
+    rcases hrest with h1 | ⟨_, h2⟩ | h3
+    · exact h1
+    · exact absurd h2 (hok c hc).1
+    · exact absurd h3 (hok c hc).2
+  unfold gcMayDelete
+  simp [hreg, hl, hlacks, hest]
+
+/-- **C16_gc_full_when_repaired** — once the closure returns on a failed lookup (the proposed repair;
+    `gcReturnsOnNodeLookupError = true`) and no two Nodes share a provider id, the full statement holds. -/
+theorem C16_gc_full_when_repaired (i : GCIn) (d : String)
+    (huniq : ∀ pid, (nodesOf i pid).length ≤ 1) (h : d ∈ (gcWith true i).1) :
+    ∃ c ∈ i.claims, c.name = d ∧ gcMayDelete i c = true := by
+  obtain ⟨c, hc, hname, hreg, hl, hlacks, hrest⟩ := C16_gc_partial true i d h
+  refine ⟨c, hc, hname, ?_⟩
+  have hest : nodeAbsentOrNotReady i c = true := by
+    rcases hrest with h1 | ⟨h2, _⟩ | h3
+    · exact h1
+    · exact absurd h2 (by decide)
+    · exact absurd h3 (lookup_not_duplicate i c huniq)
+  unfold gcMayDelete
+  simp [hreg, hl, hlacks, hest]
+
+/-- neither list may fail: a failed NodeClaim list or provider list deletes nothing -/
+theorem C16_gc_list_guards (flag : Bool) (i : GCIn)
+    (h : i.listClaimsFault = true ∨ i.providerListFault = true) : (gcWith flag i).1 = [] := by
+  unfold gcWith
+  rcases h with h | h <;> simp [h]
+
+/-- a NodeClaim whose only Node is Ready is never deleted when the lookup succeeds -/
+theorem C16_gc_ready_guard (flag : Bool) (i : GCIn) (c : Claim) (h : lookup i c = .one true) :
+    (gcOne flag i c).1 = false := by
+  unfold gcOne; rw [h]
+
+/-! ### The two defects, as machine-checked negations of the full statement on concrete witnesses -/
+
+/-- one Registered NodeClaim, instance gone, its single Node is Ready, the Node lookup fails -/
+def gcWitnessLookup : GCIn :=
+  { claims := [{ name := "nc-00", pid := "fake://i-00", registered := .true_, deleting := false, managed := true }],
+    provider := [], nodes := [{ name := "node-00", pid := "fake://i-00", ready := true }],
+    listClaimsFault := false, providerListFault := false, lookupFault := ["fake://i-00"], deleteFaults := [] }
+
+/-- the code as written (`returnsOnLookupErr = false`) deletes it; the specification forbids it; the repaired
+    collector does not -/
+theorem C16_gc_violated_by_lookup_error :
+    (gcWith false gcWitnessLookup).1 = ["nc-00"] ∧
+    gcDeletesOk gcWitnessLookup (gcWith false gcWitnessLookup).1 = false ∧
+    (gcWith true gcWitnessLookup).1 = [] := by
+  refine ⟨?_, ?_, ?_⟩ <;> simp [gcWith, gcWitnessLookup, candidate, livePids, gcOne, lookup, deleteFaultOf,
+    gcDeletesOk, gcMayDelete, providerLacks, nodeAbsentOrNotReady, nodesOf]
+
+/-- one Registered NodeClaim, instance gone, two Nodes carry its provider id and both are Ready -/
+def gcWitnessDuplicate : GCIn :=
+  { claims := [{ name := "nc-00", pid := "fake://i-00", registered := .true_, deleting := false, managed := true }],
+    provider := [], nodes := [{ name := "node-00", pid := "fake://i-00", ready := true },
+                              { name := "node-01", pid := "fake://i-00", ready := true }],
+    listClaimsFault := false, providerListFault := false, lookupFault := [], deleteFaults := [] }
+
+theorem C16_gc_violated_by_duplicate_nodes (flag : Bool) :
+    (gcWith flag gcWitnessDuplicate).1 = ["nc-00"] ∧
+    gcDeletesOk gcWitnessDuplicate (gcWith flag gcWitnessDuplicate).1 = false := by
+  refine ⟨?_, ?_⟩ <;> simp [gcWith, gcWitnessDuplicate, candidate, livePids, gcOne, lookup, deleteFaultOf,
+    gcDeletesOk, gcMayDelete, providerLacks, nodeAbsentOrNotReady, nodesOf]
+
+/-! ## Liveness -/
+
+/-- **C16_liveness** — the lifecycle pass issues a Delete only for a NodeClaim that failed to launch within
+    `LaunchTimeout` or failed to register within `registrationTimeout` (measured from the condition's last
+    transition; for a never-set condition that is the creation time). -/
+theorem C16_liveness (i : LiveIn) (h : 0 < (lifecycle i).deletes) :
+    livenessMayDelete launchTimeout registrationTimeout i.launched i.launchedAt i.registered i.registeredAt i.now = true := by
+  unfold lifecycle at h
+  by_cases hm : i.managed = true
+  · by_cases hd : i.deleting = true
+    · simp [hm, hd] at h
+    · simp only [hm, hd, Bool.not_true, Bool.false_eq_true, if_false] at h
+      have hs : (initState i).dels = 0 := rfl
+      have := liveness_dels i (launchStep i).1 (launchStep i).2.1 (initState i) (by rw [hs]; exact h)
+      obtain ⟨hreg, hor⟩ := this
+      unfold livenessMayDelete
+      simp only [Bool.or_eq_true, Bool.and_eq_true, bne_iff_ne, ne_eq, decide_eq_true_eq]
+      rcases hor with ⟨hl, hto⟩ | hto
+      · left
+        unfold launchStep at hl hto
+        by_cases hu : (i.launched == Tri.unknown) = true
+        · by_cases hc : i.createOk = true
+          · simp [hu, hc] at hl
+          · simp only [hu, hc, if_true, Bool.false_eq_true, if_false] at hto
+            have : i.launched = Tri.unknown := by simpa using hu
+            exact ⟨by rw [this]; decide, hto⟩
+        · simp only [hu, Bool.false_eq_true, if_false] at hl hto
+          exact ⟨hl, hto⟩
+      · right; exact ⟨hreg, hto⟩
+  · simp [hm] at h
+
+/-- **C16_liveness_documented** — the same against the documented timeouts (5 min / 15 min), through the
+    fact expectations; this is the predicate the driver evaluates on the real controller's Deletes. -/
+theorem C16_liveness_documented (i : LiveIn) (h : 0 < (lifecycle i).deletes) :
+    livenessMayDelete documentedLaunchTimeout documentedRegistrationTimeout
+      i.launched i.launchedAt i.registered i.registeredAt i.now = true := by
+  have hl : launchTimeout = documentedLaunchTimeout := by
+    unfold launchTimeout documentedLaunchTimeout; rw [fact_launch_timeout]; rfl
+  have hr : registrationTimeout = documentedRegistrationTimeout := by
+    unfold registrationTimeout documentedRegistrationTimeout; rw [fact_registration_timeout]; rfl
+  rw [← hl, ← hr]
+  exact C16_liveness i h
+
+/-- at most one Delete per timeout, two per pass -/
+theorem C16_liveness_at_most_two (i : LiveIn) : (lifecycle i).deletes ≤ 2 := by
+  unfold lifecycle
+  split
+  · simp
+  · split
+    · simp
+    · have := liveness_dels_le i (launchStep i).1 (launchStep i).2.1 (initState i)
+      have hs : (initState i).dels = 0 := rfl
+      simp only
+      omega
+
+/-- **C16_liveness_read_guard** — when the NodePool read that precedes the Delete fails (any failure other than
+    NotFound), no Delete is issued in that pass. -/
+theorem C16_liveness_read_guard (i : LiveIn) (hp : i.pool ≠ .none)
+    (hf : faultAt i.getFaults 0 = .err ∨ faultAt i.getFaults 0 = .conflict) :
+    (lifecycle i).deletes = 0 := by
+  have hu : (updateHealth i (initState i)).1 ≠ .ok := by
+    unfold updateHealth
+    have hg : (initState i).gets = 0 := rfl
+    cases hpool : i.pool with
+    | none => exact absurd hpool hp
+    | missing => rcases hf with hf | hf <;> simp [hg, hf]
+    | owned => rcases hf with hf | hf <;> simp [hg, hf]
+    | foreign => rcases hf with hf | hf <;> simp [hg, hf]
+  have hg := timeoutBranch_guard i (initState i) hu
+  have hc : (timeoutBranch i (initState i)).1 ≠ .continue := by
+    intro hcont
+    have := timeoutBranch_continue i (initState i) hcont
+    omega
+  have hs : (initState i).dels = 0 := rfl
+  unfold lifecycle
+  split
+  · rfl
+  · split
+    · rfl
+    · simp only
+      unfold liveness
+      split
+      · exact hs
+      · split
+        · split
+          · exact hs
+          · rcases hb : timeoutBranch i (initState i) with ⟨r, s⟩
+            rw [hb] at hg hc
+            simp only at hg hc
+            cases r with
+            | stop e => simp only; omega
+            | «continue» => exact absurd rfl hc
+        · simp only
+          split
+          · exact hs
+          · rcases hb : timeoutBranch i (initState i) with ⟨r, s⟩
+            rw [hb] at hg hc
+            simp only at hg hc
+            cases r with
+            | stop e => simp only; omega
+            | «continue» => exact absurd rfl hc
+
+/-! ## Node repair -/
+
+/-- **C16_repair** — node repair issues a Delete only when some condition of the node has matched a provider
+    repair policy for at least that policy's toleration, the pool's (cluster's, for a standalone claim) nodes
+    could be listed, and at most 20% of them, rounded up, are unhealthy. -/
+theorem C16_repair (i : RepairIn) (h : 0 < (repair i).deletes) :
+    repairMayDelete Karp.Gen.Reapers.allowedUnhealthyPercent i = true := by
+  unfold repair repairB at h
+  by_cases h1 : i.claimListFault = true
+  · simp [h1] at h
+  · simp only [h1, Bool.false_eq_true, if_false] at h
+    by_cases h2 : (i.claims != 1) = true
+    · simp [h2] at h
+    · simp only [h2, Bool.false_eq_true, if_false] at h
+      cases hf : findUnhealthy i.policies i.node.conds with
+      | none => simp [hf] at h
+      | some r =>
+        obtain ⟨c, tol⟩ := r
+        simp only [hf] at h
+        by_cases h3 : i.now < c.since + tol
+        · simp [h3] at h
+        · simp only [h3, if_false] at h
+          obtain ⟨p, hp, hmatch, htol⟩ := findUnhealthy_sound _ _ _ _ hf
+          obtain ⟨hfind, hstatus⟩ := policyMatch_spec p _ c hmatch
+          have hlasted : tolerationLasted i.policies i.node.conds i.now = true := by
+            unfold tolerationLasted
+            simp only [List.any_eq_true]
+            refine ⟨p, hp, ?_⟩
+            rw [hfind]
+            simp only [Bool.and_eq_true, beq_iff_eq, decide_eq_true_eq]
+            exact ⟨hstatus, by omega⟩
+          cases hn : i.nodeListFault with
+          | notFound => simp [hn] at h
+          | err => simp [hn] at h
+          | conflict => simp [hn] at h
+          | none =>
+            simp only [hn] at h
+            by_cases h4 : nodesHealthy i = true
+            · unfold repairMayDelete breakerClosed
+              simp only [hlasted, hn, Bool.true_and, beq_self_eq_true]
+              exact (nodesHealthy_iff i).mp h4
+            · simp [h4] at h
+
+/-- **C16_repair_documented** — against the documented 20% (through `fact_breaker_percent`); the predicate the
+    driver evaluates on the real controller's Deletes. -/
+theorem C16_repair_documented (i : RepairIn) (h : 0 < (repair i).deletes) :
+    repairMayDelete documentedUnhealthyPercent i = true := by
+  have : Karp.Gen.Reapers.allowedUnhealthyPercent = documentedUnhealthyPercent := fact_breaker_percent.1
+  rw [← this]
+  exact C16_repair i h
+
+/-- at most one Delete per pass -/
+theorem C16_repair_at_most_one (i : RepairIn) : (repair i).deletes ≤ 1 := by
+  unfold repair repairB
+  dsimp only
+  repeat' split
+  all_goals simp
+
+/-- **C16_repair_read_guards** — no Delete when the NodeClaim lookup or the node listing that guards the
+    decision fails -/
+theorem C16_repair_read_guards (i : RepairIn)
+    (h : i.claimListFault = true ∨ i.nodeListFault ≠ .none) : (repair i).deletes = 0 := by
+  have := C16_repair_at_most_one i
+  by_cases hz : (repair i).deletes = 0
+  · exact hz
+  · exfalso
+    have hpos : 0 < (repair i).deletes := by omega
+    have hm := C16_repair i hpos
+    rcases h with h | h
+    · unfold repair repairB at hpos
+      simp [h] at hpos
+    · unfold repairMayDelete breakerClosed at hm
+      simp only [Bool.and_eq_true, beq_iff_eq] at hm
+      exact h hm.2.1
+
+/-! ## Non-vacuity: concrete inputs on which each reaper does issue a Delete (hypotheses satisfiable),
+    and boundary behaviour at threshold ± 1 ns -/
+
+example : (expiration { managed := true, deleting := false, expireAfter := some 3600, created := 10, now := 3610, deleteFault := .none }).deletes = 1 := by decide
+example : (expiration { managed := true, deleting := false, expireAfter := some 3600, created := 10, now := 3609, deleteFault := .none }) = { deletes := 0, requeue := 1, err := false } := by decide
+example : (expiration { managed := true, deleting := false, expireAfter := none, created := 10, now := 99999999, deleteFault := .none }).deletes = 0 := by decide
+
+def liveWitness (now : Int) : LiveIn :=
+  { managed := true, deleting := false, launched := .unknown, launchedAt := 0, registered := .unknown, registeredAt := 0,
+    now := now, createOk := false, pool := .owned, poolCondFalse := false, prior := [false],
+    getFaults := [], patchFaults := [], deleteFaults := [] }
+
+example : (lifecycle (liveWitness 299999999999)).deletes = 0 := by decide
+example : (lifecycle (liveWitness 300000000000)).deletes = 1 := by decide
+example : (lifecycle (liveWitness 900000000000)).deletes = 2 := by decide
+example : (lifecycle { liveWitness 900000000000 with getFaults := [.err] }).deletes = 0 := by decide
+example : (lifecycle { liveWitness 900000000000 with launched := .true_, createOk := true }).deletes = 1 := by decide
+
+/-- the witness cluster without the fault and with the Node gone: a legitimate collection -/
+example : (gcWith true { gcWitnessLookup with lookupFault := [], nodes := [] }).1 = ["nc-00"] := by decide
+example : gcDeletesOk { gcWitnessLookup with lookupFault := [], nodes := [] } ["nc-00"] = true := by decide
+/-- … and with the Node Ready and the lookup working: kept -/
+example : (gcWith false { gcWitnessLookup with lookupFault := [] }).1 = [] := by decide
+
+/-- pool "a": the target and one more node unhealthy, `healthyOthers` healthy ones; toleration 1800 since 1000 -/
+def repairWitness (now : Int) (healthyOthers : Nat) : RepairIn :=
+  { policies := [{ type := "BadNode", status := "False", toleration := 1800 }],
+    node := { pool := "a", conds := [{ type := "BadNode", status := "False", since := 1000 }] },
+    claims := 1, claimPool := some "a", claimDeleting := false, annot := .none,
+    others := { pool := "a", conds := [{ type := "BadNode", status := "False", since := 1000 }] } ::
+              List.replicate healthyOthers { pool := "a", conds := [] },
+    now := now, claimListFault := false, nodeListFault := .none, patchFault := .none, deleteFault := .none }
+
+example : (repair (repairWitness 2800 4)).deletes = 1 := by decide          -- 2 of 6 = ⌈20%⌉, toleration reached
+example : (repair (repairWitness 2799 4)) = { deletes := 0, requeue := 1, err := false } := by decide
+example : (repair (repairWitness 2800 3)).deletes = 0 := by decide          -- 2 of 5 > ⌈20%⌉ = 1: breaker open
+example : (repair { repairWitness 2800 4 with nodeListFault := .err }).deletes = 0 := by decide
+
 end Karp.C16
